@@ -75,7 +75,12 @@ struct Op {
   uint64_t c[4] = {0, 0, 0, 0};      // colour / key colour
   uint64_t bg[4] = {0, 0, 0, 0};     // text background
   uint64_t salpha = 0;               // blend_blit source_alpha
-  std::string text;
+  std::string text;                  // the characters draw_text must render (the expansion of the format)
+  // how the real call produces `text`: tvar 0 "%s"; 1 "%*s" (twidth, ttail); 2 <thead literal>%d%s (tnum, ttail);
+  // 3 "%-*s|" (twidth, ttail).  tov: draw_text overload 0..4, -1 = chosen from the text length (legacy)
+  int tvar = 0, tov = -1, twidth = 0, tnum = 0;
+  std::string thead, ttail;
+  uint64_t tseed = 0;
 };
 
 struct Call {
